@@ -19,7 +19,7 @@ STREAMS = {
     'threads': {'quick': 9000, 'thorough': 300000, 'chunk': 100},
     'nest': {'quick': 9000, 'thorough': 250000, 'chunk': 150},
     # every step k of evaluation A: A runs k steps, B runs one complete evaluation, A resumes
-    'sweep': {'quick': 600, 'thorough': 40000, 'chunk': 10, 'selftest_max': 12},
+    'sweep': {'quick': 600, 'thorough': 25000, 'chunk': 10, 'selftest_max': 12},
     # histories of registrations (set_variable / set_function / on / once / off) interleaved over 2-3 parsers
     'isolation': {'quick': 5000, 'thorough': 200000, 'chunk': 150},
 }
